@@ -33,6 +33,8 @@ pub struct RowInfo {
     pub literal_expected: Vec<(String, ExpVal)>,
     /// every header column whose entry is a literal number, X or Z: (header name, value)
     pub literal_cols: Vec<(String, ExpVal)>,
+    /// header columns whose entry is a parenthesised expression over literals only: (name, value)
+    pub constant_cols: Vec<(String, i64)>,
     pub is_repeat: bool,
 }
 
@@ -215,6 +217,17 @@ pub fn instrument(b: &mut Built, ch: &mut Ch, nprobes: usize, pref: ProbePref, r
                     Entry::X(_) => info.literal_cols.push((header[col].clone(), ExpVal::X)),
                     Entry::Z(_) => info.literal_cols.push((header[col].clone(), ExpVal::Z)),
                     Entry::Num(v, _) => info.literal_cols.push((header[col].clone(), ExpVal::Val(*v as i64))),
+                    // a parenthesised expression over literals only is as good as a literal
+                    Entry::Paren(ex) => {
+                        let mut constant = true;
+                        ex.visit(&mut |x| constant &= !matches!(x, Expr::Var(_) | Expr::Random(_) | Expr::SignExt(..)));
+                        if constant {
+                            let empty = BTreeMap::new();
+                            if let Ok(v) = crate::ri::eval_expr(ex, &mut crate::ri::MapResolver { vars: None, outs: &empty }) {
+                                info.constant_cols.push((header[col].clone(), v));
+                            }
+                        }
+                    }
                     _ => {}
                 }
                 if matches!(e, Entry::X(_) | Entry::Z(_)) && cols[col].role == ColRole::ExpectedOnly {
